@@ -337,6 +337,30 @@ def main():
                     outl.append(-2)
                     detail[k] = type(e).__name__ + ": " + str(e)[:100]
             res = {"id": job.get("id"), "codes": outl, "detail": detail}
+        elif job.get("cmd") == "argv_batch":
+            # whole command lines (C19, NmfuArgv.tla); result per argv: "E" (diagnosed RuntimeError), "X" (help / version: exits),
+            # "C:<exception>" (anything else) or [input, output name, dry run, dump kinds, dump prefix, collapsed range length, flag mask]
+            outl = []
+            real_stdout = sys.stdout
+            for k, argv in enumerate(job["argvs"]):
+                sys.stdout = io.StringIO()
+                try:
+                    r = nmfu.ProgramData.load_commandline_flags(list(argv))
+                    mask = 0
+                    for i, name in enumerate(job["names"]):
+                        if nmfu.ProgramData._flags[nmfu.ProgramFlag[name]]:
+                            mask |= 1 << i
+                    outl.append([r[0], r[1], bool(nmfu.ProgramData.dry_run), [d.value for d in nmfu.ProgramData._dump], nmfu.ProgramData.dump_prefix,
+                                 nmfu.ProgramData.option(nmfu.ProgramOption.COLLAPSED_RANGE_LENGTH), mask])
+                except RuntimeError:
+                    outl.append("E")
+                except SystemExit:
+                    outl.append("X")
+                except BaseException as e:
+                    outl.append("C:" + type(e).__name__ + ": " + str(e)[:100])
+                finally:
+                    sys.stdout = real_stdout
+            res = {"id": job.get("id"), "results": outl}
         elif job.get("cmd") == "flags":
             # pure flag resolution (C19): args without input file are passed verbatim
             try:
